@@ -75,6 +75,7 @@ class NanTest(Unk):
 class LedgerDomain(Domain):
     name = 'L'
     float_mode = 'havoc'
+    smt_logic = None        # let z3 choose (linear integer arithmetic + UF): several times faster than logic ALL on these queries
     inline = {'ExitInformation.able_to_do_restart', 'ExitInformation.message', 'ExitInformation.__init__',
               'Controller.n', 'Controller.m', 'Controller.npt', 'OptimResults.__init__'}
 
@@ -99,7 +100,10 @@ class LedgerDomain(Domain):
             'A-callback: objfun/h/prox_uh/nsamples/projections do not mutate solver objects or re-enter dfols; nsamples returns an int',
             'A-resolve: method calls are resolved by name over the package classes',
             'A-lib: NumPy/SciPy calls have no effect on the tracked (integer/ghost) state',
-            'floats and arrays are havoc in this domain (over-approximation): valid for arbitrary residual values']
+            'floats and arrays are havoc in this domain (over-approximation): valid for arbitrary residual values',
+            'A-real (one identity): model.as_absolute_coordinates(x - model.xbase) == x for an x that is itself an output of as_absolute_coordinates '
+            '(real arithmetic and idempotent clip without projections; with projections this is numeric assumption N4: Dykstra re-applied to its own '
+            'output returns it — observed deviation <= 1.4e-17 over 300 random ball/half-space runs on the repaired tree, not proved)']
         self.install_ledger_builtins()
         self.builtins['remove_scaling'] = lambda eng, n, a, k, st: RS(a[0]) if isval(a[0]) else UNK
         self.spec_funcs = {'UNSC': UNSC, 'COLDIV': COLDIV, 'EX': EX, 'ER': ER, 'EO': EO, 'ENS': ENS, 'EEN': EEN, 'EJ': EJ, 'EJN': EJN, 'RS': RS, 'ABS': ABS, 'SUBBASE': SUBBASE, 'ROW': ROW, 'MEANV': MEANV, 'REC_X': REC_X, 'REC_R': REC_R, 'REC_NS': REC_NS,
@@ -224,9 +228,10 @@ class LedgerDomain(Domain):
     def binop(self, op, a, b, st, node=None):
         if isinstance(b, BaseTok) and op == '-' and isval(a):
             r = SUBBASE(b.g, a)
-            # real arithmetic + idempotence of the clip (non-projection models): xbase + clip((xbase + clip(p)) - xbase) == xbase + clip(p)
+            # real arithmetic + idempotence of the clip: xbase + clip((xbase + clip(p)) - xbase) == xbase + clip(p).
+            # With projections the same identity is the numeric assumption N4 (re-projecting a stored Dykstra output returns it).
             if z3.is_app(a) and a.decl().name() == 'ABS':
-                st.assume(z3.Implies(z3.And(z3.Not(st.heap[('G', 'proj')]), a.arg(0) == b.g), ABS(b.g, r) == a))
+                st.assume(z3.Implies(a.arg(0) == b.g, ABS(b.g, r) == a))
             return r
         if isval(a) or isval(b):
             return z3.Const(fresh_name('v'), VL)
